@@ -289,19 +289,31 @@ def selftol_records(n, rng):
     ims = importlib.import_module("operon_ai.surveillance.immune_system")
     recs = []
     words = ["alpha", "beta", "gamma", "delta", "{\"k\": 1}", "- item", "1. first", "# head", "omega", ""]
-    for _ in range(n):
+    def fill(s):
         nobs = rng.choice([3, 5, 8, 12, 30])
-        s = ims.ImmuneSystem(min_training_samples=rng.choice([1, 3, 10]), min_observations=rng.choice([2, 3, 5]), window_size=rng.choice([5, 10, 50]))
-        s.register_agent("a")
         spread = rng.choice([0.0, 0.1, 1.0, 5.0])
+        base_t, base_c = rng.choice([0.2, 1.0, 40.0]), rng.choice([0.2, 0.7, 0.95])
+        vocab = rng.sample(words, rng.randint(2, len(words)))
         for i in range(nobs):
-            out = " ".join(rng.choice(words) for _ in range(rng.randint(0, 6))) if rng.random() > 0.05 else None
-            s.record_observation("a", out, max(0.0, rng.gauss(1.0, spread)), min(1.0, max(0.0, rng.gauss(0.7, spread / 5))),
+            out = " ".join(rng.choice(vocab) for _ in range(rng.randint(0, 6))) if rng.random() > 0.05 else None
+            s.record_observation("a", out, max(0.0, rng.gauss(base_t, spread)), min(1.0, max(0.0, rng.gauss(base_c, spread / 5))),
                                  error=(rng.choice(["timeout", "parse"]) if rng.random() < rng.choice([0.0, 0.2, 0.9]) else None))
         for _ in range(rng.choice([0, 0, 3, 10])):
             s.record_canary_result("a", rng.random() < rng.choice([1.0, 0.8, 0.3]))
+        return nobs
+    for _ in range(n):
+        s = ims.ImmuneSystem(min_training_samples=rng.choice([1, 3, 10]), min_observations=rng.choice([2, 3, 5]), window_size=rng.choice([5, 10, 50]))
+        s.register_agent("a")
+        nobs = fill(s)
         sel = s.train_agent("a").value
-        rec = {"selection": sel, "threat": "none", "action": "ignore", "nobs": nobs}
+        rounds = 1
+        if sel == "positive" and rng.random() < 0.5:       # behaviour moves to a new window and the agent is trained again
+            if rng.random() < 0.5:
+                s.displays["a"].clear()
+            nobs = fill(s)
+            sel = s.train_agent("a").value
+            rounds = 2
+        rec = {"selection": sel, "threat": "none", "action": "ignore", "nobs": nobs, "rounds": rounds}
         if sel == "positive":
             r = s.inspect("a")
             rec.update(threat=r.threat_level.value, action=r.action.value, violations=[v[:60] for v in r.violations])
@@ -426,7 +438,7 @@ def run(tier):
     R.cov["evaluations"] += len(st)
     R.cov["selftolerance_windows"] = {"total": len(st), "accepted_by_training": sum(1 for x in st if x["selection"] == "positive")}
     for i, cl in pf.items():
-        R.violation("SelfTolerance nobs=%d" % st[i - 1]["nobs"], dict(st[i - 1], clause="SelfTolerance"))
+        R.violation("SelfTolerance training-rounds=%d" % st[i - 1]["rounds"], dict(st[i - 1], clause="SelfTolerance"))
     R.sample({"treg_record": tre[len(tre) // 2]}, cap=6)
     R.cov["exhaustive"] = closed
     R.cov["impl_graphs"] = [{"system": x["cfg"]["system"], "rt": x["cfg"]["rt"], "at": x["cfg"]["at"], "rules": x["cfg"]["rules"], "states": x["states"],
